@@ -101,6 +101,20 @@ pub const ACCS: [Acc; 30] = [
     Acc::TransitionPrev,
 ];
 
+/// the IXDTF writer under every combination of the offset / time-zone-name / calendar display options (one entry
+/// point, twelve option sets: a shortcut for one combination is a different code path under the same lock)
+fn all_ixdtf_variants(f: impl Fn(DisplayOffset, DisplayTimeZone, DisplayCalendar) -> TemporalResult<String>) -> TemporalResult<String> {
+    let mut out = Vec::new();
+    for o in [DisplayOffset::Auto, DisplayOffset::Never] {
+        for t in [DisplayTimeZone::Auto, DisplayTimeZone::Never, DisplayTimeZone::Critical] {
+            for c in [DisplayCalendar::Auto, DisplayCalendar::Always] {
+                out.push(f(o, t, c)?);
+            }
+        }
+    }
+    Ok(out.join(" | "))
+}
+
 /// units by index: 0 year .. 9 nanosecond
 pub const UNIT_TABLE: [Unit; 10] = [
     Unit::Year,
@@ -366,7 +380,7 @@ impl Api for Global {
         z.to_plain_datetime()
     }
     fn ixdtf(&self, z: &ZonedDateTime) -> TemporalResult<String> {
-        z.to_ixdtf_string(DisplayOffset::Auto, DisplayTimeZone::Auto, DisplayCalendar::Auto, ToStringRoundingOptions::default())
+        all_ixdtf_variants(|o, t, c| z.to_ixdtf_string(o, t, c, ToStringRoundingOptions::default()))
     }
     fn display(&self, z: &ZonedDateTime) -> Result<String, String> {
         // `impl Display for ZonedDateTime` calls the wrapper and `expect`s its result; the lock is
@@ -505,13 +519,7 @@ impl<P: TimeZoneProvider> Api for WithProv<'_, P> {
         z.to_plain_datetime_with_provider(self.0)
     }
     fn ixdtf(&self, z: &ZonedDateTime) -> TemporalResult<String> {
-        z.to_ixdtf_string_with_provider(
-            DisplayOffset::Auto,
-            DisplayTimeZone::Auto,
-            DisplayCalendar::Auto,
-            ToStringRoundingOptions::default(),
-            self.0,
-        )
+        all_ixdtf_variants(|o, t, c| z.to_ixdtf_string_with_provider(o, t, c, ToStringRoundingOptions::default(), self.0))
     }
     fn display(&self, z: &ZonedDateTime) -> Result<String, String> {
         // what `Display` prints is, by its own definition, the default-option IXDTF string
